@@ -48,14 +48,16 @@ def obligations(tier):
             ),
         Obl("ufline", "ufline.c",
             progs=[Prog("qmail-local.c", main_as="local_main", cut=["checkhome", "bouncexf", "qmesearch"])],
-            repo=["sgetopt.c", "subgetopt.c", "quote.c", "myctime.c", "datetime.c", "fmt_str.c", "fmt_uint.c", "fmt_uint0.c",
+            repo=["sgetopt.c", "subgetopt.c", "myctime.c", "datetime.c", "fmt_str.c", "fmt_uint.c", "fmt_uint0.c",
                   "fmt_ulong.c", "stralloc_cat.c", "stralloc_catb.c", "stralloc_cats.c", "stralloc_copy.c", "stralloc_opyb.c",
                   "stralloc_opys.c", "stralloc_pend.c", "byte_copy.c", "byte_rchr.c", "str_chr.c", "str_rchr.c", "case_lowerb.c",
                   "substdio.c"],
             lib=["ideal_substdio.c", "arena_stralloc.c"],
-            defines={"ARENA_CAP": 72, "ARENA_SLOTS": 8}, sysrename=["_exit", "umask", "chdir", "time"],
+            defines={"ARENA_CAP": 72, "ARENA_SLOTS": 8}, sysrename=["_exit", "umask", "chdir", "time", "strlen"],
             grid=[{"S": n} for n in ([0, 1, 2, 3] if tier == "quick" else [0, 1, 2, 3, 4, 5])],
             unwind_default=lambda p: 64, backend="minisat", timeout=600,
             claim="ufline",
+            expect_witnesses=lambda p: ["ufline_built"] + (["empty_sender"] if p["S"] == 0 else ["newline_in_sender"])
+                + (["space_tab_in_sender"] if p["S"] >= 2 else []),
             ),
     ]
